@@ -888,6 +888,126 @@ def mon_c13(case, obs):
 
 
 PROPS['C13'] = {'gen': gen_c13, 'monitors': [mon_c13]}
+# ----------------------------------------------------------------------------- C07
+
+HPCB = 0x748000      # handler control block
+HCODE = 0x705000     # handler code
+OLDPCB = 0x740000
+ISTK = 0x741000
+
+
+def gen_c07(tier, seed):
+    g = G('t', seed)
+    r = g.rnd
+    n = 1 if tier == 'quick' else 20
+    events = [[], ['md:0'], ['md:1'], ['md:2'], ['mu:0'], ['md:7'], ['wb:20002b:5', 'qb:41', 't:1e8480', 'sv'],
+              ['wb:20000b:5', 'qa:42', 't:1e8480', 'sv'], ['t:fe5028'], ['wb:20000b:4'], ['md:0', 'wb:20002b:5', 'qb:31', 't:2dc6c0', 'sv'],
+              ['md:1', 't:fe5028']]
+    for ipl in range(16):
+        for ev in events:
+            for flags in (0, 0x100, 0x80, 0x180):           # handler PSW: none / R / I / R+I
+                for _ in range(n):
+                    fl = r.choice(allflags())
+                    cm = r.choice([0, 0, 0, 1, 3])
+                    psw = psw_of(fl, ipl=ipl, extra=(cm << 11) | (cm << 9))
+                    regs = rnd_regs(r, psw)
+                    regs[13] = OLDPCB
+                    regs[14] = ISTK + 4 * r.randrange(4)
+                    regs[12] = r.choice([STK, STK + 0x40])
+                    hpsw = (15 << 13) | flags | r.choice([0, 0x3c0000])
+                    hsp = 0x760000
+                    # a handler block with R: the block-move list at +64 is empty (count 0)
+                    pcb = be(hpsw, 4) + be(HCODE, 4) + be(hsp, 4) + [0] * 52 + be(0, 4) + [0] * 16
+                    # with I the initial context is skipped: a second copy of the block follows at +12 (not used by RETPS)
+                    mem = [(0x8c, be(HPCB, 4) * 64), (HPCB, pcb), (HCODE, [0x30, 0xc8, 0x70, 0x70]),
+                           (OLDPCB, [r.randrange(256) for _ in range(0x40)] + [0] * 0x20), (ISTK - 8, [r.randrange(256) for _ in range(0x30)])]
+                    main = r.choice([[0x70], ins(OP['MOVW'], immw(r.randrange(1 << 32)), reg(3)), ins(OP['ADDW2'], lit(1), reg(4)), [0x7b, 0x02]])
+                    ops = setup_ops(regs, mem, main + [0x70] * 6) + ['k:3e8'] + ev + ['gi', 'gr', 'st', 'gr', 'rw:%x' % OLDPCB, 'rw:%x' % (OLDPCB + 4),
+                                                                              'rw:%x' % (OLDPCB + 8), 'rw:%x' % regs[14], 'st', 'gr', 'X:0']
+                    g.add(ops, 'irq-ipl%d' % ipl)
+    # privileged instructions outside kernel level; CALLPS / RETPS pairs in kernel level
+    for opc in (0x30ac, 0x30c8, 0x300d, 0x3013):
+        for cm in range(4):
+            for pm in range(4):
+                for _ in range(3 * n):
+                    psw = psw_of(r.choice(allflags()), ipl=r.randrange(16), extra=(cm << 11) | (pm << 9))
+                    regs = rnd_regs(r, psw)
+                    regs[0] = r.choice([HPCB, 0x700300])
+                    regs[13] = OLDPCB
+                    regs[14] = ISTK
+                    pcb = be((15 << 13), 4) + be(HCODE, 4) + be(0x760000, 4) + [0] * 80
+                    mem = [(HPCB, pcb), (HCODE, [0x30, 0xc8, 0x70]), (OLDPCB, be(psw & ~0x180, 4) + be(0x700200, 4) + be(STK, 4) + [0] * 64),
+                           (ISTK - 4, be(OLDPCB, 4))]
+                    g.add(setup_ops(regs, mem, [opc >> 8, opc & 0xff, 0x70, 0x70]) + ['k:3e8', 'gr', 'st', 'gr', 'st', 'gr', 'X:1'], 'priv-%x' % opc)
+    return g.result('Every processor priority level 0-15 x interrupt source combinations raised through the DUART (mouse buttons, keyboard / RS-232 '
+                    'receive, transmitter ready, vertical blank by time, none) x handler control blocks with and without the R and I flags x '
+                    'kernel / non-kernel interrupted level x random registers; the handler returns at once with RETPS; plus CALLPS / RETPS / '
+                    'ENBVJMP / DISVJMP at every current / previous level combination.')
+
+
+def irq_level_doc(val):
+    v = val & 63
+    return 0 if v == 0 else (14 if v < 8 else 15)
+
+
+def mon_c07(case, obs):
+    toks = case.split()[1:]
+    if not toks[-1].startswith('X:'):
+        return None
+    out, fin = monitors.split_obs(obs)
+    if any(o == 'p' for o in out):
+        return 'host panic'
+    if len(out) < len(toks):
+        return None
+    regs = {}
+    for t in toks:
+        f = t.split(':')
+        if f[0] == 'r':
+            regs[int(f[1], 16)] = int(f[2], 16)
+    grs = [i for i, t in enumerate(toks) if t == 'gr']
+    parse = lambda o: [int(x, 16) for x in o[2:].split(',')]
+    if toks[-1] == 'X:1':
+        # privileged instruction: refused outside kernel level with no state change
+        opc_tok = [t for t in toks if t.startswith('ld:%x:' % PC0)][0]
+        psw = regs[11]
+        cm = (psw >> 11) & 3
+        st1 = out[grs[0] + 1]
+        before, after = parse(out[grs[0]]), parse(out[grs[1]])
+        if cm != 0:
+            if st1 != 'xP':
+                return 'privileged instruction at level %d returned %s' % (cm, st1)
+            if before != after:
+                return 'refused privileged instruction changed registers'
+        elif st1 == 'xP':
+            return 'privileged instruction refused at kernel level'
+        return None
+    gi = out[toks.index('gi')]
+    before, after = parse(out[grs[0]]), parse(out[grs[1]])
+    ipl = (regs[11] >> 13) & 15
+    cm = (regs[11] >> 11) & 3
+    pending = gi != 'i-'
+    level = irq_level_doc(int(gi[1:], 16)) if pending else 0
+    st1 = out[grs[0] + 1]
+    if pending and ipl < level:
+        # delivered; the handler's RETPS runs in the same step (handler PSW is kernel level): transparent
+        if st1 != 'ok':
+            return 'interrupt delivery + RETPS returned %s' % st1
+        for i in list(range(11)) + [12, 13, 14, 15]:
+            if before[i] != after[i]:
+                return 'after interrupt and RETPS register %d is %x, was %x (ipl %d, request %s)' % (i, after[i], before[i], ipl, gi)
+        keep = 0x3c0000 | 0x1e000 | 0x1800
+        if (before[11] & keep) != (after[11] & keep):
+            return 'after interrupt and RETPS the PSW is %x, was %x' % (after[11], before[11])
+    else:
+        # not delivered: the interrupted program's own instruction ran; PCBP / ISP untouched
+        if after[13] != before[13] or after[14] != before[14]:
+            return 'no interrupt was due (ipl %d, request %s) but PCBP/ISP changed' % (ipl, gi)
+        if after[15] == HCODE or after[15] == HCODE + 2:
+            return 'interrupt delivered at ipl %d although the request %s has level %d' % (ipl, gi, level)
+    return None
+
+
+PROPS['C07'] = {'gen': gen_c07, 'monitors': [mon_c07]}
 PROPS['C05'] = {'gen': gen_c05, 'monitors': [mon_c05]}
 PROPS['C02'] = {'gen': gen_c02, 'monitors': []}
 PROPS['C03'] = {'gen': gen_c03, 'monitors': []}
